@@ -1279,6 +1279,28 @@ class Extractor:
         for r in refs:
             inner, k = re.subn(r'(?<![\w.>])' + re.escape(r) + r'\b', '(*%s)' % r, inner)
             rep['rules']['reference_use->deref'] = rep['rules'].get('reference_use->deref', 0) + k
+        # constref=1: 'const T &x = E;' (an alias of an lvalue that is not modified in its scope) is replaced by
+        # textual substitution of (E) for x up to the end of the enclosing brace block
+        if a.get('constref') == '1':
+            while True:
+                mcr = re.search(r'\bconst\s+[\w:<>\s,]+?&\s*(\w+)\s*=\s*([^;{}]+);', inner)
+                if not mcr:
+                    break
+                nm, ex = mcr.group(1), mcr.group(2).strip()
+                # end of the enclosing block
+                depth = 0
+                k = mcr.end()
+                while k < len(inner):
+                    if inner[k] == '{':
+                        depth += 1
+                    elif inner[k] == '}':
+                        if depth == 0:
+                            break
+                        depth -= 1
+                    k += 1
+                scope = re.sub(r'(?<![\w.>])' + re.escape(nm) + r'\b', '(%s)' % ex, inner[mcr.end():k])
+                inner = inner[:mcr.start()] + '/* alias %s */' % nm + scope + inner[k:]
+                rep['rules']['const_reference->substitution'] = rep['rules'].get('const_reference->substitution', 0) + 1
         # local references bound with 'auto &x = E;' become pointers: 'T *x__ref = &(E);', later uses '(*x__ref)'
         # (a reference is an alias of the object E denotes at that point - and dangles when that object dies)
         while True:
